@@ -50,7 +50,7 @@ GT = {0: 10, 1: 7, 2: 9}    # thorough depths
 
 def lock_spec(prop, tier):
     q = tier == "quick"
-    T = dict(budget=900.0, job_budget=600.0)  # thorough budgets
+    T = dict(budget=600.0, job_budget=450.0)  # thorough budgets
     if prop == "C01":
         if q:
             return (lr(merge(fam("p2x1", "conv2", "guards2"), fam("opt2", "prep2", locks=OPT)), -1)
